@@ -15,9 +15,10 @@ E6       ICV lengths and integrity key sizes per transform (12/16/32; 20/32/64).
 """
 import ast
 
-from ..finite import Interp
 from ..model import src, walk_no_nested
-from ..terms import callee_name, calls_in, compare_parts, flatten_add, inline, kwargs_of, single_def
+from ..sval import NONE, const, norm_pc, same, strip_ids
+from ..terms import calls_in
+from .. import tq
 from . import common
 
 EXPLANATION = ('static analysis: term extraction of the MAC input on the sending and verifying side and comparison after '
@@ -31,8 +32,20 @@ ASSUMPTIONS = [
 ]
 
 
-def norm_crypto(t):
-    return t.replace('self.crypto.', 'crypto.')
+def attr(t, n):
+    return ('attr', t, n)
+
+
+SELF = ('param', 'self')
+
+
+def swap_crypto(t, frm, to):
+    """term with the keys object `frm` replaced by `to`"""
+    if t == frm:
+        return to
+    if isinstance(t, tuple):
+        return tuple(swap_crypto(x, frm, to) for x in t)
+    return t
 
 
 def run(ctx):
@@ -46,199 +59,199 @@ def run(ctx):
     if len(macs) != 1:
         return
     parse, g, mac, passing, computed, received = macs[0]
+    PV = ctx.sval(parse)
     dparam = parse.call_params()[0]
     failing = 'T' if passing == 'F' else 'F'
     fn = [m for lab, m in mac.succ if lab == failing]
     ctx.check(bool(fn) and all(m.kind == 'stmt' and isinstance(m.ast, ast.Raise) for m in fn) and all(
         esc.hier.is_sub(e, 'IkeSaError') for m in fn for e in (m.raises or {'?': 1})), 'E2',
         'a checksum mismatch raises a protocol error', key=('E2', 'mismatch'), site=ctx.site(parse, mac.ast))
-    for n, x in common.nodes_calling(ctx, parse, g, common.calls_named('decrypt')):
-        ctx.check(common.dominated_by_edge(g, n, mac, passing), 'E2', 'decryption runs only after the comparison passed',
-                  key=('E2', 'decrypt-dominated'), site=ctx.site(parse, x))
-    vcall = [x for x in ast.walk(computed) if isinstance(x, ast.Call) and callee_name(x) == 'compute'][0]
-    v_args = [src(a) for a in vcall.args]
-    ctx.check(src(vcall.func.value) == 'crypto.integrity' and v_args == ['crypto.sk_a', '%s[:-crypto.integrity.hash_size]' % dparam]
-              and src(computed) == src(vcall), 'E1', 'verifier: MAC = integrity.compute(SK_a, datagram[:-ICV]) over the datagram as received',
-              key=('E1', 'verifier-term'), site=ctx.site(parse, mac.ast), detail={'found': src(computed)})
-    ctx.check(src(received) == '%s[-crypto.integrity.hash_size:]' % dparam, 'E1', 'verifier: compared with the last ICV octets of the datagram',
-              key=('E1', 'verifier-received'), site=ctx.site(parse, mac.ast), detail={'found': src(received)})
-    reassigned = [n for n in walk_no_nested(parse.node) if isinstance(n, (ast.Assign, ast.AugAssign)) and any(
-        src(t) == dparam for t in (n.targets if isinstance(n, ast.Assign) else [n.target]))]
-    ctx.check(not reassigned, 'E1', 'verifier: the datagram is not altered before the MAC is computed', key=('E1', 'verifier-data'),
-              site=ctx.site(parse, parse.node))
+    macterm = PV.terms[id(mac.ast)]
+    macpos = macterm[1] if macterm[0] == 'not' else macterm
+    for c in PV.calls_to(qual='message.PayloadSK.decrypt'):
+        ctx.check(tq.entails(c.pc, macpos) is True, 'E2', 'decryption runs only after the comparison passed',
+                  key=('E2', 'decrypt-dominated'), site=ctx.site(parse, c.node))
+    vkeys = ('param', 'crypto')
+    vwant = PV.expr('crypto.integrity.compute(crypto.sk_a, %s[:-crypto.integrity.hash_size])' % dparam)
+    ctx.check(same(computed, vwant), 'E1', 'verifier: MAC = integrity.compute(SK_a, datagram[:-ICV]) over the datagram as received',
+              key=('E1', 'verifier-term'), site=ctx.site(parse, mac.ast), detail={'found': tq.text(computed)})
+    ctx.check(same(received, PV.expr('%s[-crypto.integrity.hash_size:]' % dparam)), 'E1',
+              'verifier: compared with the last ICV octets of the datagram', key=('E1', 'verifier-received'), site=ctx.site(parse, mac.ast),
+              detail={'found': tq.text(received)})
 
     # ---------------------------------------------------------------- E1 sender
     tb = ctx.func('message.Message.to_bytes')
-    gt = esc.add_exception_edges(tb)
-    comp = [(n, x) for n, x in common.nodes_calling(ctx, tb, gt, common.calls_named('compute'))]
-    ctx.check(len(comp) == 1, 'E1', 'sender: Message.to_bytes computes one MAC', key=('E1', 'sender-compute'), site=ctx.site(tb, tb.node))
+    T = ctx.sval(tb)
+    site = ctx.site(tb, tb.node)
+    skeys = attr(SELF, 'crypto')
+    has_keys = norm_pc(((T.expr('self.crypto is not None'), True),))
+    comp = T.calls_to(qual='crypto.Integrity.compute')
+    ctx.check(len(comp) == 1, 'E1', 'sender: Message.to_bytes computes one MAC', key=('E1', 'sender-compute'), site=site)
     if len(comp) == 1:
-        cn, cx = comp[0]
-        s_args = [norm_crypto(src(a)) for a in cx.args]
-        dvar = cx.args[1].value.id if len(cx.args) == 2 and isinstance(cx.args[1], ast.Subscript) and isinstance(
-            cx.args[1].value, ast.Name) else None
-        ctx.check(norm_crypto(src(cx.func.value)) == 'crypto.integrity' and dvar is not None and s_args == [
-            'crypto.sk_a', '%s[:-crypto.integrity.hash_size]' % dvar], 'E1',
-            'sender: MAC = integrity.compute(SK_a, message[:-ICV]) - the same key attribute and truncation as the verifier',
-            key=('E1', 'sender-term'), site=ctx.site(tb, cx), detail={'found': src(cx)})
-        if dvar:
-            d = single_def(res, tb, dvar)
-            ops = [src(o) for o in flatten_add(d)] if isinstance(d, ast.AST) else []
-            ctx.check(len(ops) == 2, 'E1', 'sender: the MACed buffer is header | payloads', key=('E1', 'sender-buffer'),
-                      site=ctx.site(tb, cx), detail={'found': ops})
-            hd = single_def(res, tb, ops[0]) if len(ops) == 2 else None
-            pk = [c for c in calls_in(hd) if callee_name(c) == 'pack'] if isinstance(hd, ast.AST) else []
-            ok = len(pk) == 1 and isinstance(pk[0].args[0], ast.Constant) and pk[0].args[0].value == '>8s8s4B2L' \
-                and src(pk[0].args[1]) == 'self.spi_i'
-            ctx.check(ok, 'E1', 'sender: the buffer starts with the 28-octet IKE header (from the initiator SPI)',
-                      key=('E1', 'sender-header'), site=ctx.site(tb, cx))
-            pd = single_def(res, tb, ops[1]) if len(ops) == 2 else None
-            pl = pd.args[0] if isinstance(pd, ast.Call) and callee_name(pd) == '_payloads_to_bytes' and pd.args else None
-            ctx.check(pl is not None, 'E1', 'sender: followed by the serialised payload list', key=('E1', 'sender-payloads'),
-                      site=ctx.site(tb, cx))
-            # length patch dominates the MAC; ICV written at the end
-            patches = []
-            icvw = []
-            for n, x in common.nodes_calling(ctx, tb, gt, common.calls_named('pack_into')):
-                a = [src(z) for z in x.args]
-                if len(a) == 4 and a[0] == "'>L'" and a[1] == dvar and a[2] == '24' and a[3] == 'len(%s)' % dvar:
-                    patches.append(n)
-                elif len(a) == 4 and a[1] == dvar:
-                    icvw.append((n, x))
-            ctx.check(len(patches) == 1 and cn.id not in gt.reach([gt.entry], blocked_nodes=patches), 'E1',
-                      'sender: the total length is patched into the header (offset 24) before the MAC is computed',
-                      key=('E1', 'length-before-mac'), site=ctx.site(tb, cx))
-            mv = src(cn.ast.targets[0]) if isinstance(cn.ast, ast.Assign) else None
-            ok = len(icvw) == 1 and mv is not None
-            if ok:
-                n, x = icvw[0]
-                a = [src(z) for z in x.args]
-                ok = a[2] == 'len(%s) - len(%s)' % (dvar, mv) and a[3] == mv and n.id in gt.reach([cn]) \
-                    and src(x.args[0]) in ("f'>{len(%s)}s'" % mv,)
-            ctx.check(ok, 'E1', 'sender: the MAC is written over the last len(MAC) octets of the message', key=('E1', 'icv-write'),
-                      site=ctx.site(tb, cx))
-            rets = [n for n in gt.nodes if n.kind == 'stmt' and isinstance(n.ast, ast.Return)]
-            ctx.check(len(rets) == 1 and src(rets[0].ast.value) == dvar, 'E1', 'sender: the MACed buffer is what is returned',
-                      key=('E1', 'returns-buffer'), site=ctx.site(tb, tb.node))
+        c = comp[0]
+        D = T.ret()
+        ctx.check(same(c.term, swap_crypto(strip_ids(vwant), vkeys, skeys)[:2] + (attr(skeys, 'integrity'),) + (
+            (('key', attr(skeys, 'sk_a')), ('data', ('slice', strip_ids(D), NONE, ('un', 'USub', attr(attr(skeys, 'integrity'), 'hash_size')), NONE))),)),
+            'E1', 'sender: MAC = integrity.compute(SK_a, message[:-ICV]) over the buffer that is returned - the same key attribute and '
+            'truncation as the verifier', key=('E1', 'sender-term'), site=ctx.site(tb, c.node), detail={'found': tq.text(c.term, 300)})
+        ctx.check(strip_ids(c.pc) == strip_ids(has_keys), 'E1', 'sender: the MAC is computed iff keys are set', key=('E1', 'mac-iff-keys'),
+                  site=ctx.site(tb, c.node))
+        parts = list(D[1]) if D[0] == 'add' else []
+        ctx.check(len(parts) == 2, 'E1', 'sender: the MACed buffer is header | payloads', key=('E1', 'sender-buffer'), site=site,
+                  detail={'found': tq.text(D, 300)})
+        if len(parts) == 2:
+            head = parts[0]
+            if tq.is_call(head, 'builtins.bytearray'):
+                head = list(tq.args(head).values())[0]
+            ha = list(tq.args(head).values()) if tq.is_call(head, 'struct.pack') else []
+            ctx.check(len(ha) >= 2 and ha[0] == const('>8s8s4B2L') and ha[1] == attr(SELF, 'spi_i'), 'E1',
+                      'sender: the buffer starts with the 28-octet IKE header (from the initiator SPI)', key=('E1', 'sender-header'), site=site)
+            pl = tq.args(parts[1]).get('payloads') if tq.is_call(parts[1], 'message.Message._payloads_to_bytes') else None
+            ctx.check(pl is not None, 'E1', 'sender: followed by the serialised payload list', key=('E1', 'sender-payloads'), site=site)
             # SK payload is last and ends with the placeholder
-            sk_app = [(n, x) for n, x in common.nodes_calling(ctx, tb, gt, common.calls_named('append'))]
-            ok = len(sk_app) == 1 and pl is not None and src(sk_app[0][1].func.value) == src(pl)
+            ok = pl is not None and pl[0] == 'list' and len(pl[1]) == 2 and pl[1][0] == ('star', attr(SELF, 'payloads')) \
+                and pl[1][1][0] == 'when' and strip_ids(pl[1][1][1]) == strip_ids(has_keys)
             if ok:
-                skv = src(sk_app[0][1].args[0])
-                d2 = single_def(res, tb, skv)
-                ok = isinstance(d2, ast.Call) and callee_name(d2) == 'generate' and src(d2.func.value) == 'PayloadSK'
-                lst = single_def(res, tb, src(pl))
-                ok = ok and isinstance(lst, ast.AST) and src(lst) == 'self.payloads[:]'
-                conds = [c for c in gt.nodes if c.kind == 'cond' and src(c.ast) == 'self.crypto is not None']
-                ok = ok and any(common.dominated_by_edge(gt, sk_app[0][0], c, 'T') for c in conds) \
-                    and any(common.dominated_by_edge(gt, cn, c, 'T') for c in conds)
-            ctx.check(ok, 'E1', 'sender: exactly one SK payload is appended last, iff keys are set, and the MAC is computed iff keys are set',
-                      key=('E1', 'sk-last'), site=ctx.site(tb, tb.node))
+                sk = pl[1][1][2]
+                ok = tq.is_call(sk, 'message.PayloadSK.generate') and same(tq.args(sk).get('cleartext', NONE), T.expr(
+                    'self._payloads_to_bytes(self.encrypted_payloads)')) and tq.args(sk).get('iv') == attr(SELF, 'iv') \
+                    and tq.args(sk).get('crypto') == skeys
+            ctx.check(ok, 'E1', 'sender: exactly one SK payload, generated from the serialisation of encrypted_payloads with the message '
+                      'IV and keys, is appended last, iff keys are set', key=('E1', 'sk-last'), site=site,
+                      detail={'payload list': tq.text(pl, 400) if pl is not None else None})
+        pis = T.calls_to(callee='struct.pack_into')
+        patches = [x for x in pis if list(x.args.values())[:1] == [const('>L')] and len(x.args) == 4 and
+                   list(x.args.values())[1] == D and list(x.args.values())[2] == const(24) and
+                   same(list(x.args.values())[3], ('call', 'builtins.len', NONE, (('#0', D),)))]
+        ctx.check(len(patches) == 1 and not patches[0].pc and patches[0].seq < c.seq, 'E1',
+                  'sender: the total length is patched into the header (offset 24) before the MAC is computed',
+                  key=('E1', 'length-before-mac'), site=ctx.site(tb, c.node))
+        icvw = [x for x in pis if x not in patches]
+        ok = len(icvw) == 1
+        if ok:
+            a = list(icvw[0].args.values())
+            LEN = lambda t: ('call', 'builtins.len', NONE, (('#0', t),))   # noqa: E731
+            ok = len(a) == 4 and a[1] == D and a[3] == c.term and icvw[0].seq > c.seq and \
+                strip_ids(a[2]) == strip_ids(('bin', '-', LEN(D), LEN(c.term)))
+            fmt = a[0] if len(a) == 4 else NONE
+            ok = ok and fmt[0] == 'fstr' and [x for x in fmt[1] if x[0] == 'const'] == [const('>'), const('s')] \
+                and [strip_ids(x[1]) for x in fmt[1] if x[0] == 'fmt'] == [strip_ids(LEN(c.term))]
+            ok = ok and strip_ids(icvw[0].pc) == strip_ids(has_keys)
+        ctx.check(ok, 'E1', 'sender: the MAC is written over the last len(MAC) octets of the message', key=('E1', 'icv-write'),
+                  site=ctx.site(tb, c.node))
+        ctx.check(len(T.returns) == 1, 'E1', 'sender: the MACed buffer is what is returned', key=('E1', 'returns-buffer'), site=site)
     gen = ctx.func('message.PayloadSK.generate')
-    rets = [n for n in walk_no_nested(gen.node) if isinstance(n, ast.Return)]
-    ok = len(rets) == 1 and isinstance(rets[0].value, ast.Call) and callee_name(rets[0].value) == 'PayloadSK'
-    if ok:
-        ops = [src(o) for o in flatten_add(rets[0].value.args[0])]
-        ok = len(ops) == 3 and ops[0] == 'iv' and ops[2] in ("b'\\x00' * crypto.integrity.hash_size",) \
-            and isinstance(single_def(res, gen, ops[1]), ast.Call) and callee_name(single_def(res, gen, ops[1])) == 'encrypt'
-    ctx.check(ok, 'E1', 'the SK body is IV | ciphertext | ICV-sized placeholder', key=('E1', 'sk-body'), site=ctx.site(gen, gen.node))
+    G = ctx.sval(gen)
+    clear, ivp, cryp = gen.call_params()[:3]
+    r = G.ret()
+    body = tq.args(r).get('ciphertext') if tq.is_call(r, 'new message.PayloadSK') else None
+    bparts = list(body[1]) if body is not None and body[0] == 'add' else []
+    enc = bparts[1] if len(bparts) == 3 else NONE
+    ok = len(bparts) == 3 and bparts[0] == ('param', ivp) and tq.is_call(enc, 'crypto.Cipher.encrypt') and \
+        strip_ids(bparts[2]) in (strip_ids(G.expr("b'\\x00' * %s.integrity.hash_size" % cryp)),)
+    ctx.check(ok, 'E1', 'the SK body is IV | ciphertext | ICV-sized placeholder', key=('E1', 'sk-body'), site=ctx.site(gen, gen.node),
+              detail={'body': tq.text(body, 400) if body is not None else None})
     ic = ctx.func('crypto.Integrity.compute')
-    rets = [n for n in walk_no_nested(ic.node) if isinstance(n, ast.Return)]
-    ok = len(rets) == 1
-    if ok:
-        e = inline(res, ic, rets[0].value, 3)
-        ps = ic.call_params()
-        ok = src(e) == 'HMAC(%s, %s, digestmod=self.hasher).digest()[:self.hash_size]' % (ps[0], ps[1])
-    ctx.check(ok, 'E1', 'Integrity.compute = HMAC(key, data) truncated to hash_size', key=('E1', 'compute'), site=ctx.site(ic, ic.node))
+    IC = ctx.sval(ic)
+    ps = ic.call_params()
+    common.expect_term(ctx, 'E1', IC, IC.ret(), 'HMAC(%s, %s, digestmod=self.hasher).digest()[:self.hash_size]' % (ps[0], ps[1]),
+                       'Integrity.compute = HMAC(key, data) truncated to hash_size', ('E1', 'compute'), ctx.site(ic, ic.node))
 
     # ---------------------------------------------------------------- E3
-    pd = single_def(res, gen, 'padlen')
-    ctx.check(isinstance(pd, ast.AST), 'E3', 'PayloadSK.generate computes a pad length', key=('E3', 'padlen'), site=ctx.site(gen, gen.node))
+    ea = tq.args(enc) if tq.is_call(enc, 'crypto.Cipher.encrypt') else {}
+    data = ea.get('data', NONE)
+    if tq.is_call(data, 'builtins.bytes'):
+        data = list(tq.args(data).values())[0]
+    dp = list(data[1]) if data[0] == 'add' else []
+    pad = None
+    if len(dp) == 3 and dp[0] == ('param', clear) and dp[1][0] == 'bin' and dp[1][1] == '*' and const(b'\x00') in dp[1][2:] \
+            and tq.is_call(dp[2], 'struct.pack') and list(tq.args(dp[2]).values())[0] == const('>B'):
+        n1 = [x for x in dp[1][2:] if x != const(b'\x00')][0]
+        n2 = list(tq.args(dp[2]).values())[1]
+        if strip_ids(n1) == strip_ids(n2):
+            pad = n1
+    ctx.check(pad is not None, 'E3', 'the plaintext is followed by padlen pad octets and one Pad Length octet holding the same padlen',
+              key=('E3', 'pad-append'), site=ctx.site(gen, gen.node), detail={'encrypted data': tq.text(data, 400)})
     ncase = 0
     bad = None
-    if isinstance(pd, ast.AST):
-        clear = gen.call_params()[0]
+    if pad is not None:
         for B in (8, 16):
             for n in range(0, 3 * B + 1):
-                v = Interp(prog, gen, {'crypto.cipher.block_size': B, clear: (0,) * n}).ev(pd)
+                def leaf(t, B=B, n=n):
+                    if t == ('param', clear):
+                        return (0,) * n
+                    if strip_ids(t) == attr(attr(('param', cryp), 'cipher'), 'block_size'):
+                        return B
+                    raise tq.NoValue()
+                try:
+                    v = tq.teval(pad, leaf)
+                except (tq.NoValue, Exception):
+                    v = None
                 ncase += 1
                 if not (isinstance(v, int) and 0 <= v <= B - 1 and (n + v + 1) % B == 0) and bad is None:
                     bad = (B, n, v)
         ctx.check(bad is None, 'E3', 'padding: for every plaintext length modulo the block size (8 and 16) the padded length is a '
                   'whole number of blocks and 0 <= padlen <= block-1 (%d cases)' % ncase, key=('E3', 'pad-arith'),
-                  site=ctx.site(gen, gen.node), detail={'block,len,padlen': bad})
-        aug = [n for n in walk_no_nested(gen.node) if isinstance(n, ast.AugAssign) and src(n.target) == clear]
-        ok = len(aug) == 1 and isinstance(aug[0].op, ast.Add)
-        if ok:
-            ops = flatten_add(aug[0].value)
-            ok = len(ops) == 2 and src(ops[0]) == "b'\\x00' * padlen" and src(ops[1]) == "pack('>B', padlen)"
-        ctx.check(ok, 'E3', 'the plaintext is followed by padlen pad octets and one Pad Length octet', key=('E3', 'pad-append'),
-                  site=ctx.site(gen, gen.node))
-        enc = [c for c in calls_in(gen.node) if callee_name(c) == 'encrypt']
-        ctx.check(len(enc) == 1 and [src(a) for a in enc[0].args] == ['crypto.sk_e', 'bytes(iv)', 'bytes(%s)' % clear], 'E3',
-                  'the padded plaintext is encrypted under SK_e with the message IV', key=('E3', 'encrypt-args'), site=ctx.site(gen, gen.node))
+                  site=ctx.site(gen, gen.node), detail={'block,len,padlen': bad, 'padlen': tq.text(pad)})
+    ctx.check(ea.get('key') == attr(('param', cryp), 'sk_e') and same(ea.get('iv', NONE), G.expr('bytes(%s)' % ivp)) and
+              enc[2] == attr(('param', cryp), 'cipher') if tq.is_call(enc) else False, 'E3',
+              'the padded plaintext is encrypted under SK_e with the message IV', key=('E3', 'encrypt-args'), site=ctx.site(gen, gen.node))
     dec = ctx.func('message.PayloadSK.decrypt')
-    ivd = single_def(res, dec, 'iv')
-    ctd = single_def(res, dec, 'ciphertext')
-    ctx.check(isinstance(ivd, ast.AST) and src(ivd) == 'self.ciphertext[:crypto.cipher.block_size]' and isinstance(ctd, ast.AST)
-              and src(ctd) == 'self.ciphertext[crypto.cipher.block_size:-crypto.integrity.hash_size]', 'E3',
-              'decrypt slices IV = first block, ciphertext = up to the ICV', key=('E3', 'slicing'), site=ctx.site(dec, dec.node))
-    dcall = [c for c in calls_in(dec.node) if callee_name(c) == 'decrypt']
-    ctx.check(len(dcall) == 1 and [src(a) for a in dcall[0].args] == ['crypto.sk_e', 'bytes(iv)', 'bytes(ciphertext)'], 'E3',
-              'decryption uses SK_e and the received IV', key=('E3', 'decrypt-args'), site=ctx.site(dec, dec.node))
-    pl = single_def(res, dec, 'padlen')
-    rets = [n for n in walk_no_nested(dec.node) if isinstance(n, ast.Return)]
-    ok = isinstance(pl, ast.AST) and len(rets) == 1 and isinstance(rets[0].value, ast.Tuple) and len(rets[0].value.elts) == 2
+    DV = ctx.sval(dec)
+    dc = dec.call_params()[0]
+    r = DV.ret()
+    B_ = '%s.cipher.block_size' % dc
+    ivw = DV.expr('self.ciphertext[:%s]' % B_)
+    plain = DV.expr('%s.cipher.decrypt(%s.sk_e, bytes(self.ciphertext[:%s]), bytes(self.ciphertext[%s:-%s.integrity.hash_size]))' % (
+        dc, dc, B_, B_, dc))
+    ok = r[0] == 'tuple' and len(r[1]) == 2 and same(r[1][0], ivw)
+    ctx.check(ok and tq.contains(r[1][1], plain), 'E3', 'decrypt slices IV = first block, ciphertext = up to the ICV, and decrypts under SK_e '
+              'with the received IV', key=('E3', 'slicing'), site=ctx.site(dec, dec.node), detail={'returned': tq.text(r, 500)})
+    ok = ok and r[1][1][0] == 'slice' and same(r[1][1][1], plain) and r[1][1][2] == NONE and r[1][1][4] == NONE
     if ok:
-        buf = src(pl.value) if isinstance(pl, ast.Subscript) else None
-        ok = buf is not None and src(pl) == buf + '[-1]' and src(rets[0].value.elts[0]) == 'iv'
-        body = rets[0].value.elts[1]
-        ok = ok and isinstance(body, ast.Subscript) and src(body.value) == buf and isinstance(body.slice, ast.Slice) \
-            and body.slice.lower is None and body.slice.upper is not None
-        if ok:
-            for p in range(0, 16):
-                up = Interp(prog, dec, {'padlen': p}).ev(body.slice.upper)
-                ok = ok and up == -(p + 1)
+        up = r[1][1][3]
+        for p_ in range(0, 16):
+            def leaf(t, p_=p_):
+                if strip_ids(t) == ('index', strip_ids(plain), const(-1)):
+                    return p_
+                raise tq.NoValue()
+            try:
+                ok = ok and tq.teval(up, leaf) == -(p_ + 1)
+            except (tq.NoValue, Exception):
+                ok = False
     ctx.check(ok, 'E3', 'unpadding removes the Pad Length octet and exactly padlen pad octets (inverse of generate)',
               key=('E3', 'unpad'), site=ctx.site(dec, dec.node))
-    ciph = prog.cls('crypto.Cipher')
-    bs = ciph.lookup('block_size')
-    ctx.check(bs is not None and src(bs.node.body[-1]) == 'return self._algorithm.block_size // 8', 'E3',
-              'block_size is the cipher block size in octets', key=('E3', 'block-size'), site=ctx.site(bs, bs.node) if bs else None)
+    bs = ctx.func('crypto.Cipher.block_size')
+    BS = ctx.sval(bs)
+    common.expect_term(ctx, 'E3', BS, BS.ret(), 'self._algorithm.block_size // 8', 'block_size is the cipher block size in octets',
+                       ('E3', 'block-size'), ctx.site(bs, bs.node))
     giv = ctx.func('crypto.Cipher.generate_iv')
-    ctx.check(src(giv.node.body[-1]) == 'return os.urandom(self.block_size)', 'E3', 'the IV is one random block',
-              key=('E3', 'iv'), site=ctx.site(giv, giv.node))
+    GI = ctx.sval(giv)
+    common.expect_term(ctx, 'E3', GI, GI.ret(), 'os.urandom(self.block_size)', 'the IV is one random block', ('E3', 'iv'), ctx.site(giv, giv.node))
 
     # ---------------------------------------------------------------- E4 / E5
-    minit = ctx.func('message.Message.__init__')
     for name in ('generate_request', 'generate_response'):
         fi = ctx.func('ikesa.IkeSa.' + name)
+        F = ctx.sval(fi)
         ps = fi.call_params()
-        ctors = [c for c in calls_in(fi.node) if callee_name(c) == 'Message']
+        ctors = F.calls_to(callee='new message.Message')
         ctx.require(len(ctors) == 1, 'anchor vanished: Message(...) in %s' % name)
-        b = kwargs_of(ctors[0], target=minit)
-        ex, pl = ps[0], ps[1]
-        init = 'Message.Exchange.IKE_SA_INIT'
+        b = ctors[0].args
+        ex, pl = ('param', ps[0]), ('param', ps[1])
+        is_init = tq.eq_decider(ex, ('global', 'message.Message.Exchange.IKE_SA_INIT'), True)
+        not_init = tq.eq_decider(ex, ('global', 'message.Message.Exchange.IKE_SA_INIT'), False)
+        empty = ('list', ())
 
-        def cond_is(e, then, other, positive):
-            """e is `then if <ex> ==/!= INIT else other` with the given polarity (positive: then when IS init)"""
-            if not isinstance(e, ast.IfExp):
-                return False
-            cp = compare_parts(e.test)
-            if not cp or {src(cp[0]), src(cp[2])} != {ex, init}:
-                return False
-            is_init_then = cp[1] is ast.Eq
-            if cp[1] not in (ast.Eq, ast.NotEq):
-                return False
-            a, bb = (src(e.body), src(e.orelse)) if is_init_then == positive else (src(e.orelse), src(e.body))
-            return a == then and bb == other
-        ctx.check(cond_is(b.get('payloads'), pl, '[]', True), 'E4', '%s: clear payloads only for IKE_SA_INIT' % name,
-                  key=('E4', name, 'payloads'), site=ctx.site(fi, ctors[0]))
-        ctx.check(cond_is(b.get('encrypted_payloads'), pl, '[]', False), 'E4', '%s: all payloads inside SK for every other exchange' % name,
-                  key=('E4', name, 'encrypted_payloads'), site=ctx.site(fi, ctors[0]))
-        ctx.check(cond_is(b.get('crypto'), 'self.my_crypto', 'None', False), 'E5',
+        def split(t):
+            return (strip_ids(tq.restrict(t, is_init)), strip_ids(tq.restrict(t, not_init))) if t is not None else (None, None)
+        ctx.check(split(b.get('payloads')) == (pl, empty), 'E4', '%s: clear payloads only for IKE_SA_INIT' % name,
+                  key=('E4', name, 'payloads'), site=ctx.site(fi, ctors[0].node), detail={'found': tq.text(b.get('payloads', NONE))})
+        ctx.check(split(b.get('encrypted_payloads')) == (empty, pl), 'E4', '%s: all payloads inside SK for every other exchange' % name,
+                  key=('E4', name, 'encrypted_payloads'), site=ctx.site(fi, ctors[0].node),
+                  detail={'found': tq.text(b.get('encrypted_payloads', NONE))})
+        ctx.check(split(b.get('crypto')) == (NONE, attr(SELF, 'my_crypto')), 'E5',
                   '%s: protected under my_crypto for every exchange but IKE_SA_INIT' % name, key=('E5', name, 'crypto'),
-                  site=ctx.site(fi, ctors[0]))
+                  site=ctx.site(fi, ctors[0].node), detail={'found': tq.text(b.get('crypto', NONE))})
     allowed = {'ikesa.IkeSa.generate_request', 'ikesa.IkeSa.generate_response'}
     outside = []
     for fi in prog.all_functions():
@@ -250,17 +263,10 @@ def run(ctx):
                 outside.append(fi.qual)
     ctx.check(not outside, 'E4', 'outside message.py, Message objects are constructed only by generate_request/generate_response',
               key=('E4', 'who-constructs', ','.join(sorted(outside))))
-    cl = [c for c in calls_in(tb.node) if callee_name(c) == '_payloads_to_bytes']
-    ctx.check(any(src(c.args[0]) == 'self.encrypted_payloads' for c in cl) and any(
-        isinstance(single_def(res, tb, 'cleartext'), ast.Call) for _ in [0]), 'E4',
-        'to_bytes encrypts the serialisation of encrypted_payloads', key=('E4', 'cleartext'), site=ctx.site(tb, tb.node))
-    gcall = [c for c in calls_in(tb.node) if callee_name(c) == 'generate']
-    ctx.check(len(gcall) == 1 and [src(a) for a in gcall[0].args] == ['cleartext', 'self.iv', 'self.crypto'], 'E4',
-              'the SK payload is generated from that cleartext with the message IV and keys', key=('E4', 'generate-args'),
-              site=ctx.site(tb, tb.node))
     pm = ctx.func('ikesa.IkeSa.process_message')
-    pcs = [c for c in calls_in(pm.node) if callee_name(c) == 'parse']
-    ctx.check(len(pcs) == 1 and any(k.arg == 'crypto' and src(k.value) == 'self.peer_crypto' for k in pcs[0].keywords), 'E5',
+    PM = ctx.sval(pm)
+    pcs = PM.calls_to(qual='message.Message.parse')
+    ctx.check(len(pcs) == 1 and pcs[0].args.get('crypto') == attr(SELF, 'peer_crypto'), 'E5',
               'received messages are verified under peer_crypto', key=('E5', 'verify-keys'), site=ctx.site(pm, pm.node))
 
     # ---------------------------------------------------------------- E6
@@ -276,16 +282,18 @@ def run(ctx):
     for k, v in want.items():
         ctx.check(have.get(k) == v, 'E6', 'integrity transform %d uses %s with a %d-bit ICV' % (k, v[0], v[1]),
                   key=('E6', 'table', k), site='crypto.py:%s' % d.lineno, detail={'found': have.get(k)})
-    hs = integ.lookup('hash_size')
-    ks = integ.lookup('key_size')
-    ctx.check(hs is not None and src(hs.node.body[-1]) == 'return self.keybits // 8', 'E6', 'ICV length = bits // 8',
-              key=('E6', 'hash-size'), site=ctx.site(hs, hs.node) if hs else None)
-    ctx.check(ks is not None and src(ks.node.body[-1]) == 'return self.hasher().digest_size', 'E6',
-              'integrity key size = digest size', key=('E6', 'key-size'), site=ctx.site(ks, ks.node) if ks else None)
+    hs = ctx.func('crypto.Integrity.hash_size')
+    ks = ctx.func('crypto.Integrity.key_size')
+    common.expect_term(ctx, 'E6', ctx.sval(hs), ctx.sval(hs).ret(), 'self.keybits // 8', 'ICV length = bits // 8', ('E6', 'hash-size'),
+                       ctx.site(hs, hs.node))
+    common.expect_term(ctx, 'E6', ctx.sval(ks), ctx.sval(ks).ret(), 'self.hasher().digest_size', 'integrity key size = digest size',
+                       ('E6', 'key-size'), ctx.site(ks, ks.node))
     ii = ctx.func('crypto.Integrity.__init__')
-    ctx.check(any(isinstance(n, ast.Assign) and src(n) == 'self.hasher, self.keybits = self._digestmod_dict[transform.id]'
-                  for n in walk_no_nested(ii.node)), 'E6', 'Integrity takes (digest, ICV bits) of the negotiated transform',
-              key=('E6', 'init'), site=ctx.site(ii, ii.node))
+    II = ctx.sval(ii)
+    tr = ii.call_params()[0]
+    ctx.check(same(II.final('self.hasher') or NONE, II.expr('self._digestmod_dict[%s.id][0]' % tr)) and
+              same(II.final('self.keybits') or NONE, II.expr('self._digestmod_dict[%s.id][1]' % tr)), 'E6',
+              'Integrity takes (digest, ICV bits) of the negotiated transform', key=('E6', 'init'), site=ctx.site(ii, ii.node))
 
 
 MANIFEST = {
@@ -298,6 +306,6 @@ MANIFEST = {
              'SK and use my_crypto for all exchanges but IKE_SA_INIT, and nobody else constructs a Message; ICV/key size tables.',
     'note': 'Trusted: HMAC/AES-CBC correctness and MAC collision resistance. Declined: tamper detection as a runtime fact; '
             'behaviour under every key.',
-    'technique': 'term extraction and sibling comparison + dominance/ordering + finite-abstraction evaluation of padding arithmetic',
+    'technique': 'value-term extraction and sibling comparison + ordering of recorded effects + finite-abstraction evaluation of padding arithmetic',
     'design_ref': 'DESIGN.md 3/C07',
 }
